@@ -128,6 +128,10 @@ def isRef (t : List Byte) : Bool :=
 
 def denoteRef (t : List Byte) : Int := digitsVal (t.drop 1) 0
 
+/-- representability guard for entity references: the library keeps instance ids in an `int`; an id outside that range cannot
+    name an instance and must raise an error — it must never resolve (e.g. by wrapping modulo 2^32) -/
+def refRepresentable (id : Int) : Bool := IStream.intMin ≤ id && id ≤ IStream.intMax
+
 /-- lenient: `#`, optional blanks, optional sign, digits (what `in >> int` accepts with `skipws`) -/
 def refLenient (t : List Byte) : Option Int :=
   match t with
@@ -263,7 +267,7 @@ def classify {F} (ops : FloatOps F) (lookup : Int → RefLookup) (k : Kind) (t :
   | .ref =>
     match refLenient t with
     | some id =>
-      if IStream.intMin ≤ id && id ≤ IStream.intMax && lookup id == .found then
+      if refRepresentable id && lookup id == .found then
         (if isRef t then .grammar (.ref id) else .lenient (.ref id))
       else .reject
     | none => .reject
